@@ -213,6 +213,49 @@ let validate_trace (lines : string list) (inherited : int) : string =
              | Some s -> Printf.sprintf "OK events=%d Q=%d T=%d C=%d J=%d L=%d procs=%d maxJL=%d" !nev (iz (q s)) (iz s.t) (iz s.c) (iz s.j) (iz s.l) (List.length s.procs) !max_jl
              | None -> "EMPTY")
 
+(* at most one start per target and run (Sched/OnceRun.v): the same lck events,
+   read as phase changes of the file's lock.  A process that announced forced_cmd
+   (the redo command) forces its starts; a release by a process that does not
+   hold the lock (a redo-unlocked child dropping its force-owned Lock) and the
+   implicit release at process exit are handled here. *)
+let validate_once (lines : string list) : string =
+  let st = ref oinit in
+  let nev = ref 0 in
+  let err = ref None in
+  let forced_pids = Hashtbl.create 8 in
+  let zi = z_of_int in
+  let step k l e =
+    match oapply e !st with
+    | Some s' -> st := s'; incr nev
+    | None -> if !err = None then err := Some (Printf.sprintf "ONCE-REJECT line %d (%s)" k l) in
+  List.iteri (fun k l ->
+    if !err = None then
+    match String.split_on_char ' ' l with
+    | "lck" :: pid :: runid :: kind :: fid :: _ ->
+        let fidi = int_of_string fid in
+        let r = zi (if runid = "" then 0 else int_of_string runid) in
+        if kind = "forced_cmd" then Hashtbl.replace forced_pids pid ()
+        else if fidi = 0 || fidi >= 0x10000000 then () else begin
+          let p = zi (int_of_string pid) and f = zi fidi in
+          match kind with
+          | "acquired" -> step k l (OAcquire (p, f))
+          | "job_start" -> if Hashtbl.mem forced_pids pid then step k l (OForce (r, f)) else step k l (OStart (r, f))
+          | "job_done" -> step k l (ODone (r, f))
+          | "release" ->
+              (match olookup f !st.locks with
+               | Some (q, _) when q = p -> step k l (ORelease (p, f))
+               | _ -> ())
+          | _ -> ()
+        end
+    | "tok" :: pid :: "exit" :: _ ->
+        let p = zi (int_of_string pid) in
+        List.iter (fun (f, (q, ph)) ->
+          if q = p then (match ph with PhBuild _ -> () | _ -> step k l (ORelease (p, f)))) !st.locks
+    | _ -> ()) lines;
+  match !err with
+  | Some e -> e
+  | None -> Printf.sprintf "once=OK once_events=%d starts=%d forced_starts=%d" !nev (List.length !st.starts) (List.length !st.fstarts)
+
 (* lock / job protocol traces (Sched/Locks.v) *)
 let validate_locks (lines : string list) : string =
   let st = ref empty in
@@ -281,7 +324,10 @@ let () =
   if Array.length Sys.argv > 2 && Sys.argv.(1) = "lcktrace" then begin
     let ic = open_in Sys.argv.(2) in
     let rec rd acc = match input_line ic with l -> rd (l :: acc) | exception End_of_file -> List.rev acc in
-    print_endline (validate_locks (rd [])); exit 0 end;
+    let ls = rd [] in
+    let v = validate_locks ls in
+    let o = validate_once ls in
+    print_endline (if String.length o >= 11 && String.sub o 0 11 = "ONCE-REJECT" && String.length v >= 2 && String.sub v 0 2 = "OK" then o else v ^ " " ^ o); exit 0 end;
   if Array.length Sys.argv > 2 && Sys.argv.(1) = "toktrace" then begin
     let inherited = if Array.length Sys.argv > 3 then int_of_string Sys.argv.(3) else -1 in
     let ic = open_in Sys.argv.(2) in
